@@ -63,6 +63,8 @@ enum T {
     Str(&'static str),
     /// record literal
     Rec(Vec<RE>),
+    /// do-block: statements (expressions) and the returned expression
+    Do(Vec<T>, Box<T>),
 }
 
 /// one record entry
@@ -143,13 +145,32 @@ fn full(t: &T) -> String {
         T::Cond(c, t, e) => format!("if ({}) then ({}) else ({})", full(c), full(t), full(e)),
         T::Str(s) => str_lit(s),
         T::Rec(es) => rec_text(es, &full),
+        T::Do(ss, r) => do_text(ss, r, &|x| format!("({})", full(x))),
     }
+}
+
+/// a do-block as the printer lays it out: every statement on its own line, one that starts
+/// with `-` in parentheses (`protect_statement_start`; the names here are never `via` / `into`
+/// / `where`)
+fn do_text(ss: &[T], r: &T, f: &dyn Fn(&T) -> String) -> String {
+    let mut out = String::from("do {");
+    for s in ss {
+        let t = f(s);
+        out.push_str("\n  ");
+        if t.starts_with('-') {
+            out.push_str(&format!("({})", t));
+        } else {
+            out.push_str(&t);
+        }
+    }
+    out.push_str(&format!("\n  return {}\n}}", f(r)));
+    out
 }
 
 /// strength classes of the documented table: binary 1..6, prefix 7, postfix `!` 8, call/index/field 9, leaf 10
 fn strength(t: &T) -> u8 {
     match t {
-        T::Leaf(_) | T::ListN(_) | T::Str(_) | T::Rec(_) => 10,
+        T::Leaf(_) | T::ListN(_) | T::Str(_) | T::Rec(_) | T::Do(..) => 10,
         // a lambda as an operand of a prefix / postfix operator is always parenthesised here
         T::Lam(..) | T::Cond(..) => 0,
         T::Bin(op, _, _) => doc_level(op).0,
@@ -197,6 +218,7 @@ fn minimal(t: &T) -> String {
         T::Cond(c, t, e) => format!("if {} then {} else {}", minimal(c), minimal(t), minimal(e)),
         T::Str(s) => str_lit(s),
         T::Rec(es) => rec_text(es, &minimal),
+        T::Do(ss, r) => do_text(ss, r, &minimal),
     }
 }
 
@@ -682,7 +704,8 @@ fn in_fragment(p: pest::iterators::Pair<Rule>) -> Result<(), &'static str> {
         Rule::comment | Rule::eol_comment => Ok(()),
         Rule::conditional | Rule::lambda | Rule::lambda_expression | Rule::argument_list | Rule::required_arg | Rule::optional_arg | Rule::rest_arg
         | Rule::call_list | Rule::access | Rule::dot_access | Rule::spread_expression | Rule::list | Rule::list_item
-        | Rule::record | Rule::record_item | Rule::record_pair | Rule::record_key_static | Rule::record_key_dynamic | Rule::record_shorthand => {
+        | Rule::record | Rule::record_item | Rule::record_pair | Rule::record_key_static | Rule::record_key_dynamic | Rule::record_shorthand
+        | Rule::do_block | Rule::do_statement | Rule::return_statement => {
             for c in p.into_inner() {
                 in_fragment(c)?;
             }
@@ -752,7 +775,11 @@ fn gen_ft(rng: &mut Rng, depth: usize) -> T {
         }
         return T::Leaf(PEG_ATOMS[rng.below(PEG_ATOMS.len())]);
     }
-    match rng.below(16) {
+    match rng.below(17) {
+        16 => {
+            let n = [0, 0, 1, 1, 2, 3][rng.below(6)];
+            T::Do((0..n).map(|_| gen_ft(rng, depth - 1)).collect(), Box::new(gen_ft(rng, depth - 1)))
+        }
         0 => T::Neg(Box::new(gen_ft(rng, depth - 1))),
         1 => T::Not(Box::new(gen_ft(rng, depth - 1))),
         2 => T::Fact(Box::new(gen_ft(rng, depth - 1))),
@@ -993,6 +1020,48 @@ fn laid(t: &T, rng: &mut Rng, extra: u64) -> String {
             out.push_str(&wrapl(b, body_needs_parens(b), rng, extra));
             out
         }
+        // `do_block` is compound-atomic, its layout is spelled out by the rule: blanks and PLAIN
+        // line breaks (at least one) between `do` and `{`; the layout of a list behind `{`;
+        // behind a statement blanks, optionally a comment, then `;` or plain line breaks, then
+        // the layout of a list; blanks behind `return`; blanks and plain line breaks in front of
+        // `}`.  A statement behind a line break must not start with `-` (it would continue the
+        // statement before it): it is parenthesised then, as the printer does.
+        T::Do(ss, r) => {
+            const LAY_DO: &[&str] = &[" ", " ", "  ", "\t", "\n", "\r\n", " \n  ", "\n\n"];
+            const LAY_END: &[&str] = &["", " ", " ", "\n", "\r\n", "\n  ", " \n\t", "\n\n"];
+            const LINE: &[&str] = &["\n", "\n", "\r\n", "\n\n", "\n\r\n"];
+            let mut out = String::from("do");
+            out.push_str(LAY_DO[rng.below(LAY_DO.len())]);
+            out.push('{');
+            out.push_str(LAY_LIST[rng.below(LAY_LIST.len())]);
+            let mut fresh = true; // nothing in front that a leading `-` could continue
+            for st in ss {
+                let text = laid(st, rng, extra);
+                if text.starts_with('-') && !fresh {
+                    out.push_str(&format!("({}{}{})", LAY_ANY[rng.below(LAY_ANY.len())], text, LAY_ANY[rng.below(LAY_ANY.len())]));
+                } else {
+                    out.push_str(&text);
+                }
+                out.push_str(LAY_WS0[rng.below(LAY_WS0.len())]);
+                if rng.chance(1, 3) {
+                    out.push(';');
+                    fresh = true;
+                } else {
+                    if rng.chance(1, 4) {
+                        out.push_str("// c");
+                    }
+                    out.push_str(LINE[rng.below(LINE.len())]);
+                    fresh = false;
+                }
+                out.push_str(LAY_LIST[rng.below(LAY_LIST.len())]);
+            }
+            out.push_str("return");
+            out.push_str(LAY_WS[rng.below(LAY_WS.len())]);
+            out.push_str(&laid(r, rng, extra));
+            out.push_str(LAY_END[rng.below(LAY_END.len())]);
+            out.push('}');
+            out
+        }
         _ => unreachable!(),
     };
     s
@@ -1129,6 +1198,26 @@ fn check_expr_peg(ctx: &Ctx, model: &mut Model, rep: &mut Report, rng: &mut Rng)
         "[{}]", "{a: [{}]}", "x => {a: x}", "x => {}", "if {} then {} else {}", "{} == {}", "{}{}", "{} {}", "{a}{b}", "a{b}", "a {b}", "{", "}", "{a", "a}", "{a)", "(a}",
         "{a: 1", "{a: 1,", "{a: 1}}", "{{a: 1}}", "{{}}", "{a: 1, b}", "{b, a: 1}", "{a, b: 1, ...c, [d]: 2, \"e f\": 3}", "{a:: 1}", "{a = 1}", "{a => 1}",
         "{a: 1 }", "{ a: 1 }", "{a: 1\t}", "{\"k\": \"v\"}", "{k: 'v'}", "{a: 1, \"b\": 2, [c]: 3, d, ...e}", "{a ?? b}", "{a: b ?? c}", "{a?: 1}", "{a ?: 1}",
+        // do-blocks (compound-atomic: all layout spelled out by the rule)
+        "do {return 1}", "do { return 1 }", "do{return 1}", "do {\nreturn 1\n}", "do\n{\n  return 1\n}", "do \t{ return 1 }", "do // c\n{ return 1 }",
+        "do { return 1 } ", "do { return  1 }", "do { return\n1 }", "do { return\t1 }", "do { return1 }", "do { returns }", "do { return }", "do { return 1 // c\n}",
+        "do { return 1\n// c\n}", "do { // c\n return 1 }", "do { // c\n// d\n return 1 }", "do { // c }", "do { return 1; }", "do { a\n return 1 }", "do { a; return 1 }",
+        "do { a ; return 1 }", "do {a;return 1}", "do { a;; return 1 }", "do { a;\n\n return 1 }", "do { a\n\n\n return 1 }", "do { a\r\n return 1 }", "do { a return 1 }",
+        "do { a, return 1 }", "do { a\n b\n return a + b }", "do { a; b; return c }", "do { a; b\n return c }", "do {\n  a\n  b\n  return c\n}", "do {\n  a // c\n  return 1\n}",
+        "do {\n  a  // c\n  b // d\n  return 1\n}", "do {\n  // c\n  a\n  return 1\n}", "do {\n  a\n  // c\n  return 1\n}", "do {\n  a // c\n  // d\n  return 1\n}",
+        "do { a // c }", "do { a // c\n }", "do { a; // c\n return 1 }", "do { a // c\n; return 1 }", "do { // c\n ; return 1 }", "do { ; return 1 }", "do { ;a; return 1 }",
+        "do {\n  a\n  - b\n  return 1\n}", "do {\n  a\n  (-b)\n  return 1\n}", "do {\n  a\n  + b\n  return 1\n}", "do {\n  a\n  [b]\n  return 1\n}", "do {\n  a\n  (b)\n  return 1\n}",
+        "do {\n  a\n  !b\n  return 1\n}", "do {\n  a\n  not b\n  return 1\n}", "do {\n  a\n  and b\n  return 1\n}", "do {\n  a\n  via b\n  return 1\n}", "do {\n  a\n  via + b\n  return 1\n}",
+        "do {\n  a\n  via(b)\n  return 1\n}", "do {\n  a\n  via into b\n  return 1\n}", "do { a; via into b\n  return 1\n}", "do { a; where into x\n return 1 }", "do {\n  a\n  where into x\n  return 1\n}",
+        "do {\n  via into b\n  return 1\n}", "do {\n  a\n  (where into x)\n  return 1\n}", "do {\n  a\n  into => 1\n  return 1\n}", "do {\n  a\n  viaduct + 1\n  return 1\n}",
+        "do {\n  x => x\n  y\n  return 1\n}", "do {\n  if a then b else c\n  d\n  return 1\n}", "do {\n  a\n  return if b then c else d\n}", "do {\n  a\n  return x => x\n}",
+        "do { return a } + 1", "1 + do { return a }", "do { return a }(b)", "do { return a }.b", "do { return a }[0]", "do { return a }!", "-do { return a }", "(do { return a })",
+        "f(do { return a })", "f(do { return a }, b)", "[do { return a }]", "{a: do { return 1 }}", "x => do { return x }", "x => do {\n  y\n  return x\n}", "(x) => do { return x } via f",
+        "if a then do { return 1 } else do { return 2 }", "do { return do { return 1 } }", "do { do { return 1 }\n return 2 }", "do {\n  do {\n    a\n    return 1\n  }\n  return 2\n}",
+        "do { return 1 }}", "do { return 1", "do { return", "do {", "do", "do {}", "do { }", "do { a }", "do { a\n}", "do { a; }", "do return 1", "do {return 1} {return 2}",
+        "don't", "done", "do_ { return 1 }", "dodo", "do{", "return 1", "return", "a; b", "do { return a; b }", "do { return a\n b }", "do { return a b }", "do { return return 1 }",
+        "do { returnx\n return 1 }", "do { return_1 = 2\n return 1 }", "do { \"return\"\n return 1 }", "do { \"a;b\"; return 1 }", "do { [a; b]; return 1 }", "do { f(a; b); return 1 }",
+        "do { a\n\t return 1 }", "do { a \n return 1 }", "do { a\n return 1\n\n}", "do { a\n return 1 \t }", "do {\n\n  a\n\n\n  b\n\n  return 1\n\n}", "do { a\n; return 1 }", "do { a;\n; return 1 }",
         "\"a\" == 'a'", "\"1\" + 1", "1 + \"1\"", "1\"a\"", "a'b'", "true\"a\"", "\"a\"true", "\"a\"1", "\"a\"_", "\"a\" // c", "\"a\" // \"c\nb",
     ];
     for t in PROBES {
@@ -1198,6 +1287,18 @@ fn check_expr_peg(ctx: &Ctx, model: &mut Model, rep: &mut Report, rng: &mut Rng)
                 format!("\"x\"{}[0]{}", a, b),
                 format!("if{}\"x\"{}then y else z", a, b),
                 format!("x{}=>{}\"y\"", a, b),
+                format!("do{}{{{}return 1 }}", a, b),
+                format!("do {{{}x{};return 1}}", a, b),
+                format!("do {{ x{};{}return 1 }}", a, b),
+                format!("do {{ x{}\n{}return 1 }}", a, b),
+                format!("do {{ x;{}y{}\n return 1 }}", a, b),
+                format!("do {{ x\n{}-y{}\n return 1 }}", a, b),
+                format!("do {{ x{}-y{}\n return 1 }}", a, b),
+                format!("do {{{}return{}1 }}", a, b),
+                format!("do {{ return 1{}}}{}", a, b),
+                format!("do {{ x{}// c\n{}return 1 }}", a, b),
+                format!("x => do {{{}x{}\n return x }}", a, b),
+                format!("do {{ x{}via{}y\n return 1 }}", a, b),
             ] {
                 peg_compare(model, rep, &t, "postfix-layout");
             }
@@ -1207,7 +1308,7 @@ fn check_expr_peg(ctx: &Ctx, model: &mut Model, rep: &mut Report, rng: &mut Rng)
     let n = ctx.budget(500, 6000);
     const ALPHABET: &[char] = &[
         ' ', ' ', '\t', '\n', 'a', 'n', 'o', 't', 'd', 'r', 'z', '0', '1', '9', '_', '(', ')', '+', '-', '*', '/', '%', '^', '.',
-        '=', '!', '<', '>', '&', '|', '?', ',', ',', '[', ']', '.', '(', ')', '"', '\'', '{', '}', ':', ':',
+        '=', '!', '<', '>', '&', '|', '?', ',', ',', '[', ']', '.', '(', ')', '"', '\'', '{', '}', ':', ':', ';', ';', 'e', 'u',
     ];
     for _ in 0..n {
         let d = 1 + rng.below(4);
